@@ -61,12 +61,19 @@ ROLES = ("ctor", "method", "static", "function")
 NAMES = ["a", "b", "c", "d"]
 
 
-def render(role, argspec, ret):
+# what surrounds the declaration under test: 0 nothing; 1 an EARLIER namespace with the same last name component (`pre::top`)
+# that declares callables but no enum Color; 2 the same, declaring an unrelated enum of another name
+LAYOUT_PRE = ["",
+              "namespace pre { namespace top { class First { First(); double use(double v, ns::Other o) const; }; double early(double w); } }\n",
+              "namespace pre { namespace top { enum Shade { Dark }; class First { First(); void use(pre::top::Shade s) const; }; } }\n"]
+
+
+def render(role, argspec, ret, layout=0):
     args = ", ".join("%s %s%s" % (POOL[t][0], NAMES[i], (" = " + POOL[t][6]) if d else "") for i, (t, d) in enumerate(argspec))
     member = {"ctor": "Cls(%s);" % args, "method": "%s doIt(%s) const;" % (RETS[ret][0], args),
               "static": "static %s doIt(%s);" % (RETS[ret][0], args), "function": ""}[role]
     fn = "%s doIt(%s);" % (RETS[ret][0], args) if role == "function" else ""
-    return ("namespace ns { class Other { Other(); }; }\n"
+    return ("namespace ns { class Other { Other(); }; }\n" + LAYOUT_PRE[layout] +
             "namespace top { enum Color { Red, Green }; class Cls { enum Kind { A, B }; %s }; %s }\n" % (member, fn))
 
 
@@ -74,7 +81,7 @@ def ptr_name(cpptype):
     return "ptr_" + re.sub(r"[^A-Za-z0-9_]", "", cpptype)
 
 
-def check_callable(role, tis, k, ret):
+def check_callable(role, tis, k, ret, layout=0):
     n = len(tis)
     argspec = []
     for i, t in enumerate(tis):
@@ -87,7 +94,7 @@ def check_callable(role, tis, k, ret):
             seen = True
         elif seen:
             argspec[i] = (argspec[i][0], False)
-    text = render(role, argspec, ret)
+    text = render(role, argspec, ret, layout)
     files, cpp, _w = pipe.matlab(text)
     kdef = 0
     for t, d in reversed(argspec):
@@ -203,7 +210,7 @@ def _run(role, n, k, t0, t1, ret, exact=False):
         if role == 3 and kf_open("C06-foreign-scope-enum") and uses_enum(tis, ret):
             reached()
             return True          # listed known finding (replayed separately by its witness): free functions and enums
-        ok = check_callable(ROLES[role], tis, k, ret)
+        ok = check_callable(ROLES[role], tis, k, ret, (n + k + t0) % 3)
     reached({"role": ROLES[role], "types": [POOL[t][0] for t in tis], "defaults": k, "ret": RETS[ret][0]} if (not ok or (t0 == 7 and n == 2)) else None)
     return ok
 
@@ -364,7 +371,7 @@ def conds(tier):
     t = (lambda x, y: x) if q else (lambda x, y: y)
     M = "harness.c06"
     sb = "shape-bounded"
-    tb = "%d first-parameter kinds (value / reference / shared / raw pointer / enum / Vector / Matrix / string; further parameters derived)%s" % (NP, " x 2 type rows x 4 return-shape offsets" if not q else "; return shape derived")
+    tb = "%d first-parameter kinds (value / reference / shared / raw pointer / enum / Vector / Matrix / string; further parameters derived; surrounding layout derived: none / an earlier namespace with the same last name component, with or without enums)%s" % (NP, " x 2 type rows x 4 return-shape offsets" if not q else "; return shape derived")
     return [
         xh.Cond(M, "c06_expand", t(200, 900), examples=["n=3, mask=6", "n=3, mask=2", "n=0, mask=0"], bounds="0-5 parameters, all 32 default masks (legal and illegal)"),
         xh.Cond(M, "c06_ctor", t(420, 3000), path_timeout=60, kind=sb, examples=["n=2, k=1, t0=7, t1=0", "n=4, k=4, t0=0, t1=1"], bounds="constructors: 0-4 parameters, every default count, " + tb),
